@@ -1,0 +1,54 @@
+//go:build verif
+
+// Contracts for the deductive verifier in /verif (govc). This file contains comments
+// only; it is compiled only with the build tag "verif" and then adds nothing but the
+// package clause.
+
+package simple
+
+// Ghost state of main: gSSpawned handlers started. Ghost state of one handler goroutine:
+// gSHolding an item was received and not yet released, gSHeldP / gSHeldItem that item,
+// gSCalled Handle was called for it.
+
+//@ ghost var gSSpawned int
+//@ ghost var gSHolding bool
+//@ ghost var gSHeldP int
+//@ ghost var gSHeldItem T
+//@ ghost var gSCalled bool
+
+// C01 / C02 / C07 for the simplified discipline: a handler holds one item at a time, calls
+// Handle exactly once for it, and releases it - under its own priority - only after Handle
+// returned.
+//@ event recv dsc.priority.Output() (v, opened)
+//@   requires [C01 C02] one-item-at-a-time: !gSHolding
+//@   effect gSHolding := opened
+//@   effect gSHeldP := v.Priority
+//@   effect gSHeldItem := v.Item
+//@   effect gSCalled := false
+//@ functype Handle(item)
+//@   requires [C02] handle-called-once-with-the-received-item: gSHolding && !gSCalled && item == gSHeldItem
+//@   modifies gSCalled
+//@   ensures [C01 C02 C07] gSCalled
+//@ event call priority.(*Discipline).Release (d, p)
+//@   requires [C02 C07] release-after-exactly-one-handle-call-with-its-priority: gSHolding && gSCalled && p == gSHeldP
+//@   effect gSHolding := false
+//@ event go simple.(*Discipline).handler
+//@   effect gSSpawned := gSSpawned + 1
+
+//@ func (*Discipline).handler
+//@   requires [*] dsc != nil && dsc.opts.Handle != nil && dsc.priority != nil
+//@   requires [C01 C02] ghost-initial-state: !gSHolding
+//@   modifies gClock, gSHolding, gSHeldP, gSHeldItem, gSCalled
+//@   loop 0
+//@     invariant [C01 C02] !gSHolding
+
+//@ func (*Discipline).main
+//@   requires [*] dsc != nil && dsc.opts.Handle != nil && dsc.priority != nil
+//@   requires [C01] gSSpawned == 0
+//@   modifies gSSpawned
+//@   ensures [C01] exactly-handlers-quantity-handlers: gSSpawned == dsc.opts.HandlersQuantity
+//@   loop 0
+//@     invariant [C01] gSSpawned == $i
+
+//@ func Opts.isValid
+//@   ensures [*] (result == nil) <==> (opts.Handle != nil)
